@@ -11,8 +11,10 @@ CONSTANTS
   MaxR = 1
   MaxAtt = 2
   MaxFaults = 2
-  SubsInit = BOOLEAN
+  SubsInit = {TRUE, FALSE}
   MaySubscribe = TRUE
+  RestoreReqs = {2}
+  Loose = FALSE
   Guarded = TRUE
 SYMMETRY Sym
 INVARIANT AtMostOneLink
